@@ -554,6 +554,11 @@ func (g *Gen) loadAddr(a *Addr, st *State) Val {
 		s := g.sortOf(a.typ)
 		name := "G_" + mangle(a.global.Pkg.Pkg.Name()+"_"+a.global.Name())
 		t := g.heapGet(st, name, s.SMT())
+		if s.K == KIface && strings.HasPrefix(a.global.Name(), "Err") && len(a.path) == 0 {
+			// package-level sentinel errors (var ErrX = errors.New(...)) are never nil
+			g.assume("true", sNot(sEq(t, "(mk-iface 0 0)")))
+			g.note("package-level sentinel errors named Err* are assumed non-nil")
+		}
 		return g.project(Val{T: t, S: s, G: a.typ}, a.path)
 	case rElem:
 		if _, ok := a.typ.Underlying().(*types.Struct); ok && !isTimeType(a.typ) && !isOpaqueStruct(a.typ) {
